@@ -593,3 +593,71 @@ package tlog
 //@     decreases index - indexN
 //@   uses S0_step S0_upper TZ_nonneg split_coords S0_nonneg
 //@   props C09
+
+//@ # ---------- the hashes stored with a record are the RFC 6962 hashes of the subtrees it completes (C09) ----------
+//@ # an honest store: position SHI(l, k) holds the Merkle tree hash of the k'th complete subtree of 2^l records
+//@ spec opaque func HONEST(t Tree) bool =
+//@     forall l int, k int {TRUEH(t, SHI(l, k))} :: INRANGE(l, k) ==> TRUEH(t, SHI(l, k)) == MTH(k * pow2(l), (k + 1) * pow2(l))
+//@ # the subtree of 2^j records that ends with record m: its left half, its right half and its split point
+//@ lemma mth_pow2(a int, j int)
+//@   requires a >= 0 && j >= 0
+//@   ensures MTH(a, a + pow2(j + 1)) == NodeHash(MTH(a, a + pow2(j)), MTH(a + pow2(j), a + pow2(j + 1)))
+//@   uses K_char K_bounds pow2_mono
+//@   hint K(pow2(j + 1))
+//@   hint pow2(j)
+//@   trigger MTH(a, a + pow2(j + 1))
+//@   props C09
+
+//@ lemma TZ_bound(x int, k int)
+//@   requires x >= 1 && k >= 0 && x < pow2(k)
+//@   ensures TZ(x) < k
+//@   induction x
+//@   trigger TZ(x), pow2(k)
+//@   props C09
+//@ lemma pow2_mul2(a int, b int)
+//@   requires a >= 0 && b >= 0
+//@   ensures pow2(a + b) == MUL2(pow2(a), b)
+//@   induction b
+//@   hint pow2(a + b - 1)
+//@   hint pow2(a + (b - 1))
+//@   trigger MUL2(pow2(a), b)
+//@   props C09
+//@ lemma pow2_add(a int, b int, c int)
+//@   requires a >= 0 && b >= 0 && c == a + b
+//@   ensures pow2(c) == pow2(a) * pow2(b)
+//@   uses pow2_mul2 MUL2_eq
+//@   hint MUL2(pow2(a), b)
+//@   trigger pow2(a), pow2(b), pow2(c)
+//@   props C09
+//@ lemma mul_lt_cancel(x int, y int, p int)
+//@   requires p >= 1 && x * p < y * p
+//@   ensures x < y
+//@   trigger x * p, y * p
+//@   trigger p * x, p * y
+//@   trigger x * p, p * y
+//@   trigger p * x, y * p
+//@   props C09
+//@ # the coordinates of the left sibling consumed at level i when record n completes a subtree of 2^(i+1) records
+//@ lemma sibling_coords(n int, i int)
+//@   requires n >= 0 && n + 1 < pow2(61) && 0 <= i && i < TZ(n + 1)
+//@   ensures ((n >> i) + 1) * pow2(i) == n + 1 && ((n >> (i + 1)) + 1) * pow2(i + 1) == n + 1 && (n >> (i + 1)) >= 0
+//@   ensures (n >> i) * pow2(i) == n + 1 - pow2(i) && ((n >> i) - 1) * pow2(i) == n + 1 - pow2(i + 1)
+//@   ensures (n >> i) >= 1
+//@   uses split_coords
+//@   hint (n >> (i + 1)) * pow2(i)
+//@   trigger n >> i, TZ(n + 1)
+//@   props C09
+//@ func StoredHashesForRecordHash
+//@   requires 0 <= n && n + 1 < pow2(61) && r != nil
+//@   modifies "map[Tile]bool", ghost.WRITTEN, []Hash
+//@   allocates
+//@   # one hash per subtree completed by record n: the record hash itself, then one more per trailing one bit of n
+//@   ensures [C09] one_hash_per_completed_subtree: result1 == nil ==> len(result0) == 1 + TZ(n + 1) && result0[0] == h
+//@   loop 0:
+//@     invariant 0 <= i && i <= m && m == TZ(n + 1) && len(indexes) == m && 0 <= m && m <= 61 && len(hashes) == 1 && hashes[0] == h
+//@     decreases m - i
+//@   loop 1:
+//@     invariant 0 <= i && i <= m && m == TZ(n + 1) && len(old) == m && len(hashes) == 1 + i && hashes[0] == old(h)
+//@     decreases m - i
+//@   uses TZ_nonneg TZ_upper TZ_bound
+//@   props C09
